@@ -27,7 +27,7 @@ def run_seed(name):
             res['apply'] = False
             return res
         os.makedirs(os.path.join(s, '.evidence'))
-        env = dict(os.environ, OTEL_REPO=s, VERIF_EVIDENCE_DIR=os.path.join(s, '.evidence'))
+        env = dict(os.environ, OTEL_REPO=s, VERIF_EVIDENCE_DIR=os.path.join(s, '.evidence'), VERIF_JOBS=os.environ.get('VERIF_JOBS', '3'))
         # which checks could be affected: all whose units include a touched file is hard to know -> run all, own first
         touched = re.findall(r'^\+\+\+ b/(\S+)', open(patch).read(), re.M)
         res['files'] = touched
@@ -47,7 +47,7 @@ def main():
     pref = sys.argv[1] if len(sys.argv) > 1 else ''
     seeds = sorted(x for x in os.listdir(os.path.join(VERIF, 'seeded')) if re.match(r'C\d+[a-z]?_', x) and x.startswith(pref))
     out = []
-    with concurrent.futures.ThreadPoolExecutor(max_workers=6) as ex:
+    with concurrent.futures.ThreadPoolExecutor(max_workers=int(os.environ.get('MATRIX_WORKERS', '4'))) as ex:
         for r in ex.map(run_seed, seeds):
             out.append(r)
             own = r['hits'].get(r['property'])
